@@ -22,6 +22,7 @@ from .. import gf2, irx, mode, ir
 from ..irx import Lf, is_word
 from ..mode import KR, P640
 
+VREM = {}
 FN_RE = re.compile(r"tinyjambu_(128|192|256)_(aead|siv)_(encrypt|decrypt)$")
 
 
@@ -131,7 +132,7 @@ def _aux_orbit(f, klen, word_args, ex, ps):
         if len(orbit) >= 6:
             raise Broken("%s: the helper integer carried by the data loop takes more than 6 values: not enumerated" % f.name)
         orbit.append(v)
-        ex_v = irx.Exec(f, mode.Handler(klen), mode.havoc_state(klen // 32), word_args=word_args, auto=True, unrotate=True, split_max=32, head_consts={I.id: v})
+        ex_v = irx.Exec(f, mode.Handler(klen), mode.havoc_state(klen // 32), word_args=word_args, auto=True, unrotate=True, split_max=32, head_consts={I.id: v}, endptr=True)
         ps_v = ex_v.run()
         runs[v] = (ex_v, ps_v)
         for p in ps_v:
@@ -184,20 +185,24 @@ def _congruences(f, ps):
 
 
 def run_paths(f, klen, word_args=()):
-    ex = irx.Exec(f, mode.Handler(klen), mode.havoc_state(klen // 32), word_args=word_args, auto=True, unrotate=True, split_max=32)
+    ex = irx.Exec(f, mode.Handler(klen), mode.havoc_state(klen // 32), word_args=word_args, auto=True, unrotate=True, split_max=32, endptr=True)
     ps = ex.run()
     cg = _congruences(f, ps)
     if cg:
-        ex = irx.Exec(f, mode.Handler(klen), mode.havoc_state(klen // 32), word_args=word_args, auto=True, unrotate=True, split_max=32, congr=cg)
+        ex = irx.Exec(f, mode.Handler(klen), mode.havoc_state(klen // 32), word_args=word_args, auto=True, unrotate=True, split_max=32, congr=cg, endptr=True)
         ps = ex.run()
     eq = _index_exit_value(f, ps)
     if eq:
-        ex = irx.Exec(f, mode.Handler(klen), mode.havoc_state(klen // 32), word_args=word_args, auto=True, exit_eq=eq, unrotate=True, split_max=32, congr=cg)
+        ex = irx.Exec(f, mode.Handler(klen), mode.havoc_state(klen // 32), word_args=word_args, auto=True, exit_eq=eq, unrotate=True, split_max=32, congr=cg, endptr=True)
         ps = ex.run()
     else:
         ao = _aux_orbit(f, klen, word_args, ex, ps)
         if ao is not None:
             ex, ps = ao
+    for k_ in [k_ for k_ in VREM if k_[0] == f.name]:
+        del VREM[k_]
+    for h_, vr_ in getattr(ex, "vrem", {}).items():
+        VREM[(f.name, h_)] = (vr_[0], vr_[1])         # a loop driven by a cursor and an end pointer: (virtual remaining length, the cursor it belongs to)
     for p in ps:
         if any(e[0] == "cond-data" for e in p.events):
             raise Broken("%s branches on data bits: path summaries are not comparable with the reference (constant-time rule C07 decides such code)" % f.name)
@@ -226,6 +231,9 @@ def hd_syms(f, header):
         if I.id in AUX.get((f.name, header), ()):
             continue
         (ptrs if (I.get("ty") or "").endswith("*") else ints).append(I)
+    if not ints and (f.name, header) in VREM:
+        import types
+        ints = [types.SimpleNamespace(id=VREM[(f.name, header)][0])]
     return ptrs, ints
 
 
